@@ -212,10 +212,15 @@ def distributeDepth (h : Int) (p : RewardPeriod) (blockDist : Nat) (pools : List
       let tuples ← rewardTuples p total blockDist pools1 blockDist
       applyRewards p.distribute pools1 tuples
 
+/-- repair F10 (abci.go): on the first block of a period the entitlement accumulated under an
+    earlier period is dropped -/
+def accuAtStart (h : Int) (p : RewardPeriod) (accu : Nat) : Nat :=
+  if wrapU64 h = p.start then 0 else accu
+
 def rewardsWith (h : Int) (p : RewardPeriod) (alloc accu : Nat) (pools : List EPool) : M (Nat × List EPool) := do
   let due ← isDistBlock h p.start p.mod
   let cur ← blockDistribution p alloc
-  let bd ← Uint.add accu cur
+  let bd ← Uint.add (accuAtStart h p accu) cur
   if due then do
     let pools' ← distributeDepth h p bd pools
     pure (0, pools')
